@@ -4,6 +4,7 @@ import (
 	"container/heap"
 	"lunar/toolkit-core/clock"
 	"lunar/toolkit-core/logging"
+	"lunar/toolkit-core/verifhook"
 	"sync"
 	"time"
 )
@@ -80,6 +81,7 @@ func (dpq *DelayedPriorityQueue) Enqueue(
 
 	dpq.mutex.Unlock()
 
+	verifhook.Point("dpq.before_park", "id", req.ID)
 	// Wait until request is processed or TTL expires
 	select {
 	case <-req.doneCh:
@@ -171,9 +173,11 @@ func (dpq *DelayedPriorityQueue) processQueueItems() {
 		case req.doneCh <- struct{}{}:
 			close(req.doneCh)
 			dpq.currentWindowCounter++
+			verifhook.Point("dpq.pop", "id", req.ID, "delivered", true)
 			dpq.cl.Logger.Trace().Str("requestID", req.ID).
 				Msgf("notified successful request processing to req.doneCh")
 		default:
+			verifhook.Point("dpq.pop", "id", req.ID, "delivered", false)
 			dpq.cl.Logger.Trace().Str("requestID", req.ID).
 				Msgf("req.doneCh already closed")
 		}
